@@ -243,6 +243,34 @@ static void spaceSeq(vf::Runner& R) {
     if (g != want) c.fail(std::string("seq|value|") + cls, in + ": got " + vf::vstr(g) + " expected " + vf::vstr(want));
   }, 5.0);
 }
+// decimal (non-dyadic) steps: from = i/10, to = j/10 (+ an offset of 0, -1/2000 or +1/2000), by = k/10. The number of elements is decided in
+// integers: the sequence holds from + m.by for every m with from + m.by <= to in exact decimal arithmetic (offset 0: m <= |j-i|/k; a negative
+// offset takes the multiple just above 'to' out, a positive one changes nothing); values are judged within the rounding of m additions.
+static void spaceSeqDecimal(vf::Runner& R) {
+  R.space("seq:double:decimal:from,to in 0..12 tenths:by {1,2,3,7} tenths:offset {0,-1/2000,+1/2000}", 13 * 13 * 4 * 3, [=](uint64_t idx, vf::Case& c) {
+    static const int KS[4] = {1, 2, 3, 7};
+    std::vector<int> d = vf::digits(idx, {3, 4, 13, 13}); int off = d[0] == 0 ? 0 : d[0] == 1 ? -1 : 1, k = KS[d[1]], i = d[2], j = d[3];
+    if (i == j && off != 0) { c.tag("seq:skipped(single point with offset)"); return; }
+    bool asc = i < j || (i == j);
+    // 'to' = j/10 + off/2000, moved away from 'from' for off = +1 and towards it for off = -1 (descending: mirrored)
+    double from = i / 10.0, to = j / 10.0 + (asc ? off : -off) / 2000.0, by = k / 10.0;
+    int span = asc ? j - i : i - j;                       // in tenths
+    int count = span / k + 1; if (off == -1 && span % k == 0) --count;   // the multiple that coincided with j/10 is now beyond 'to'
+    if (off == -1 && span == 0) return;
+    std::string in = "seq<double>(" + vf::num(from) + "," + vf::num(to) + "," + vf::num(by) + ")";
+    if (c.verbose) c.note(in);
+    c.nontrivial();
+    c.site("VectorTools::seq");
+    std::vector<double> g = VT::seq(from, to, by);
+    const char* cls = off == 0 ? "decimal-step" : off < 0 ? "decimal-step,end-just-below-a-multiple" : "decimal-step,end-just-above-a-multiple";
+    c.tag(std::string("seq:") + cls);
+    if ((int)g.size() != count) { c.fail(std::string("seq|count|") + cls, in + ": got " + str(g.size()) + " elements " + vf::vstr(g) + ", expected " + str(count) + " (from included, every from+m.by up to and including to)"); return; }
+    for (int m = 0; m < count; ++m) {
+      double want = (asc ? i + m * k : i - m * k) / 10.0;
+      if (!(std::fabs(g[(size_t)m] - want) <= (m + 2) * 2.3e-16 * 2.0)) { c.fail(std::string("seq|value|") + cls, in + ": element " + str(m) + " is " + vf::num(g[(size_t)m]) + ", expected " + vf::num(want)); return; }
+    }
+  }, 5.0);
+}
 static void spaceFdr(vf::Runner& R, int L) {
   R.space("computeFdr:len<=" + str(L), nvec(5, L), [=](uint64_t idx, vf::Case& c) {
     static const double pv[5] = {0.5, 0.125, 1.0, 0.015625, 0.25};
@@ -324,7 +352,8 @@ int main(int argc, char** argv) {
   spaceShapes(R);
   spacePairs<int>(R, 3); spacePairs<double>(R, 3);
   spaceWeighted(R, 3); spaceTriples(R, 3);
-  spaceSeq(R); spaceFdr(R, L); spaceLists(R);
+  spaceSeq(R);
+  spaceSeqDecimal(R); spaceFdr(R, L); spaceLists(R);
   spaceLog(R, 4, 3);
   spaceLong<int>(R); spaceLong<double>(R); spaceLongDouble(R);
   if (th) { spacePairs<int>(R, 4); spacePairs<double>(R, 4); spaceWeighted(R, 4); spaceLogUnweighted(R, 5); }
